@@ -324,7 +324,7 @@ Qed.
 (* ------------------------------------------------------------------ the excluded shape is real (in the model) *)
 
 Definition ov_params : params :=
-  mkParams [mkSpec 0 UntilRunDone OnSignal RWC; mkSpec 1 UntilRunDone OnSignal RWC] true true false.
+  mkParams [mkSpec 0 UntilRunDone OnSignal RWC; mkSpec 1 UntilRunDone OnSignal RWC] true true false false.
 
 (* boot [c0]; Reload -> [c0;c1] (restart: c0 is re-launched, its goroutine has not entered Run);
    Reload -> [c0] (restart): Stop() is called on c0, then c0's pending Run begins and clears the
@@ -364,4 +364,71 @@ Proof.
             try (destruct c as [|[p|p|]]; cbn in H; discriminate H);
             destruct j; discriminate H).
   all: try (destruct k as [|[|[|k]]]; cbn in H; try discriminate H; destruct k; discriminate H).
+Qed.
+
+(* ------------------------------------------------------------------ repaired lifecycle: no Stop() is overtaken *)
+
+(* a blocking Stop() that is still waiting has its signal in place *)
+Definition I_sigw (P : params) (s : state) : Prop :=
+  forall w, In w (workers s) -> w_pc w = WCalled -> is_nonblocking P (w_child w) = false ->
+            mem_N (w_child w) (sigs s) = true.
+
+Lemma mem_N_add c x l : mem_N x l = true -> mem_N x (add_N c l) = true.
+Proof. unfold add_N. destruct (mem_N c l); cbn; intros H; rewrite ?H; auto using orb_true_r. Qed.
+
+Lemma mem_N_add_same c l : mem_N c (add_N c l) = true.
+Proof. unfold add_N. destruct (mem_N c l) eqn:E; cbn; auto. now rewrite N.eqb_refl. Qed.
+
+Lemma mem_N_remove_other c x l : x <> c -> mem_N x (remove_N c l) = mem_N x l.
+Proof.
+  intros Hne. unfold remove_N. induction l as [|y l IH]; cbn; [reflexivity|].
+  destruct (N.eqb y c) eqn:E; cbn.
+  - apply N.eqb_eq in E. subst y. rewrite IH.
+    destruct (N.eqb x c) eqn:E2; [apply N.eqb_eq in E2; contradiction|reflexivity].
+  - now rewrite IH.
+Qed.
+
+Lemma I_sigw_step P s l s' : fix_lc P = true -> I_sigw P s -> step P s l = Some s' -> I_sigw P s'.
+Proof.
+  intros Hlc H Hst. unfold I_sigw in *.
+  open_step Hst; cbn; goal_cases; intros w' Hin Hpc Hnb; try (apply H; assumption).
+  all: try (apply in_app_or in Hin as [Hin|Hin]; [apply H; assumption|];
+            unfold spawn_workers in Hin; apply in_map_iff in Hin as (e0 & <- & _); discriminate Hpc).
+  - (* a new Run cycle resets the child: the waiting Stop() callers are released *)
+    apply in_map_iff in Hin as (w0 & <- & Hw0).
+    apply andb_true_iff in Erl as [Er _]. rewrite Er.
+    unfold release_worker in *. destruct (w_pc w0) eqn:Ep; try (rewrite Ep in Hpc; discriminate Hpc).
+    destruct (N.eqb (w_child w0) c) eqn:Ec; [cbn in Hpc; discriminate Hpc|].
+    rewrite mem_N_remove_other; [apply H; auto|].
+    intros Heq. rewrite Heq, N.eqb_refl in Ec. discriminate Ec.
+  - (* no reset (fix_lc is on, so the condition itself is false) *)
+    rewrite Hlc, andb_true_r in Erl. rewrite Erl. apply H; assumption.
+  - (* StopCall sets the signal *)
+    apply in_upd in Hin as [Hin|(x & Hx & ->)].
+    + apply mem_N_add. apply H; assumption.
+    + assert (x = w) by congruence. subst x. cbn. apply N.eqb_eq in E1. rewrite E1. apply mem_N_add_same.
+  - apply in_upd in Hin as [Hin|(x & Hx & ->)]; [apply H; assumption|discriminate Hpc].
+  - apply in_upd in Hin as [Hin|(x & Hx & ->)]; [apply H; assumption|discriminate Hpc].
+  - apply in_upd in Hin as [Hin|(x & Hx & ->)]; [apply H; assumption|discriminate Hpc].
+Qed.
+
+Lemma I_sigw_reach P s : fix_lc P = true -> reach P s -> I_sigw P s.
+Proof.
+  intros Hlc. apply reach_inv; [intros w []|]. intros; eapply I_sigw_step; eassumption.
+Qed.
+
+Lemma not_overtaken P s : fix_lc P = true -> reach P s -> ~ overtaken P s.
+Proof.
+  intros Hlc Hr (j & w & i & k & Hw & Hpc & Hnb & Hk & Hc & Hkp & Hs & _).
+  pose proof (I_sigw_reach P s Hlc Hr w (nth_error_In _ _ Hw) Hpc Hnb) as Hm.
+  rewrite Hc in Hs. congruence.
+Qed.
+
+(* C09_live for the fully repaired code: no exclusion left *)
+Theorem no_stuck_state_lc P s :
+  fix_c09 P = true -> fix_lc P = true -> good_pool P -> good_children P ->
+  greach P s -> runt s <> TIdle -> pending s -> prog P s.
+Proof.
+  intros Hf Hlc Hp Hg Hr Hidle Hpend.
+  eapply no_stuck_state; eauto. apply not_overtaken; auto using greach_reach.
 Qed.
